@@ -198,3 +198,94 @@ def _short(rec):
         else:
             s[k] = v
     return s
+
+
+def narrow_dtype_cases(rep: Report, n_cases=6, T_long=300):
+    """C03: the previous/next-site views on Transitions objects built through the public constructor from long state arrays of
+    narrow integer dtypes (more frames than an int8 can count)."""
+    core.gemdat_src_first()
+    from gemdat import Transitions
+    rng = np.random.default_rng(rep.seed + 303)
+    recs = []
+    for b in range(n_cases):
+        world = gen.SiteWorld(rng, 'ortho', 'chol', N=32, n_sites=3, radius=1.0, inner_fraction=0.5)
+        hist = gen.random_history(rng, 30, 2, 3, p_stay=0.7, inner=True)
+        tr = world.trajectory(hist).transitions_between_sites(world.structure, 'Li', site_radius=1.0, site_inner_fraction=0.5)
+        reps = -(-T_long // 30)
+        dt = [np.int8, np.int16, np.int32, np.int64][b % 4]
+        states = np.tile(np.asarray(tr.states), (reps, 1)).astype(dt)
+        inner = np.tile(np.asarray(tr.inner_states), (reps, 1)).astype(dt)
+        t2 = Transitions(trajectory=tr.trajectory, diff_trajectory=tr.diff_trajectory, sites=tr.sites, events=tr.events, states=states,
+                         inner_states=inner)
+        H = sites_drive.hist_of(states, inner)
+        bid = 700000 + b
+        recs.append({'b': bid, 'act': 'Hist', 'hist': H})
+        recs.append({'b': bid, 'act': 'Prev', 'arr': np.asarray(t2.states_prev()).astype(int).tolist(), 'dtype': str(np.dtype(dt))})
+        recs.append({'b': bid, 'act': 'Next', 'arr': np.asarray(t2.states_next()).astype(int).tolist(), 'dtype': str(np.dtype(dt))})
+    verdicts = core.validate_traces('TraceSites', recs, timeout=1500, shards=min(core.NCPU, n_cases))
+    rep.add_trace_stats()
+    for rec, (v, act) in zip(recs, verdicts):
+        if rec['act'] == 'Hist':
+            continue
+        rep.evaluations += 1
+        rep.nontrivial += 1
+        if v != 'ok':
+            rep.violation({'kind': 'leg-B', 'clause': v + '-long-narrow-dtype', 'dtype': rec['dtype'], 'frames': len(rec['arr'])})
+    rep.traces += n_cases
+    rep.extra['narrow_dtype_long_histories'] = {'cases': n_cases, 'frames': T_long}
+
+
+def scale_by_tiling(rep: Report, total_frames=33200, ms=(0, 4)):
+    """C03/C04 at scale: a TLC-judged periodic history (every atom in the same inner site in the first and last frame of the period, so
+    that no event crosses a period boundary and the classifier state is clean there) repeated beyond 2^15 frames: the event and jump
+    tables must be the shifted copies of the period's tables."""
+    core.gemdat_src_first()
+    rng = np.random.default_rng(rep.seed + 404)
+    P, A, S = 40, 2, 3
+    world = gen.SiteWorld(rng, 'ortho', 'chol', N=32, n_sites=S, radius=1.0, inner_fraction=0.5)
+    for _ in range(50):
+        hist = gen.random_history(rng, P, A, S, p_stay=0.6, inner=True, exclusive=False)
+        for a in range(A):
+            hist[0][a] = [a % S, a % S]
+            hist[1][a] = [a % S, a % S]
+            hist[P - 1][a] = [a % S, a % S]
+            hist[P - 2][a] = [a % S, a % S]
+        small = world.trajectory(hist)
+        tr = small.transitions_between_sites(world.structure, 'Li', site_radius=1.0, site_inner_fraction=0.5)
+        if sites_drive.hist_of(tr.states, tr.inner_states) == hist and sites_drive.jumps_or_none(tr, 0) is not None:
+            break
+    # the period itself is judged by the trace spec
+    recs, _ = sites_drive.record_pipeline(800000, world, hist, inner_fraction=0.5, ms=ms, ks=(), want={'Hist', 'Events', 'Jumps'})
+    verdicts = core.validate_traces('TraceSites', recs, timeout=900)
+    rep.add_trace_stats()
+    for rec, (v, act) in zip(recs, verdicts):
+        rep.evaluations += 1
+        if v != 'ok':
+            rep.violation({'kind': 'leg-B', 'clause': v, 'record': rec})
+            return
+    from gemdat import Trajectory
+    K = -(-total_frames // P)
+    coords = np.tile(np.asarray(small.positions), (K, 1, 1))
+    big = Trajectory(species=small.species, coords=coords, lattice=small.get_lattice(), time_step=small.time_step, metadata=dict(small.metadata))
+    trb = big.transitions_between_sites(world.structure, 'Li', site_radius=1.0, site_inner_fraction=0.5)
+    ev_small = sites_drive.rows_of(tr.events, sites_drive.EV_COLS)
+    exp_ev = sorted(r[:5] + [r[5] + k * P] for k in range(K) for r in ev_small)
+    got_ev = sorted(sites_drive.rows_of(trb.events, sites_drive.EV_COLS))
+    rep.evaluations += 1
+    rep.nontrivial += 1
+    if got_ev != exp_ev:
+        bad = next((g for g, e in zip(got_ev, exp_ev) if g != e), None)
+        rep.violation({'kind': 'scale', 'clause': 'events-of-repeated-history-are-not-the-repeated-events', 'frames': K * P, 'first_difference': bad})
+    for m in ms:
+        js = sites_drive.jumps_or_none(tr, m)
+        jb = sites_drive.jumps_or_none(trb, m)
+        small_rows = sites_drive.rows_of(js.data, sites_drive.J_COLS) if js is not None else []
+        exp = sorted([r[0], r[1], r[2], r[3] + k * P, r[4] + k * P] for k in range(K) for r in small_rows)
+        got = sorted(sites_drive.rows_of(jb.data, sites_drive.J_COLS)) if jb is not None else []
+        rep.evaluations += 1
+        rep.nontrivial += 1
+        if got != exp:
+            bad = next((g for g, e in zip(got, exp) if g != e), None)
+            rep.violation({'kind': 'scale', 'clause': f'jumps-of-repeated-history-are-not-the-repeated-jumps m={m}', 'frames': K * P,
+                           'expected_count': len(exp), 'observed_count': len(got), 'first_difference': bad})
+    rep.extra['scale_by_tiling'] = {'frames': K * P, 'atoms': A, 'period': P, 'events': len(got_ev)}
